@@ -365,11 +365,18 @@ func (x g) multipart(sb *strings.Builder, b string, depth int) {
 	}
 }
 
+// RFC 5322 address syntax for which the standard library's parsers return something unusual: an empty list
+// without an error (empty group), several addresses where one is expected, comments, obsolete forms
+var oddAddrs = []string{"undisclosed-recipients:;", "undisclosed-senders:;", "g: a@x.test, \"B\" <b@x.test>;", "g:;, h:;", "(only a comment) a@x.test",
+	"a@x.test (Name)", "\"a b\"@x.test", "<a@x.test>", "<>", ",", "a@x.test,", ",a@x.test", "=?UTF-8?Q?J=C3=BCrgen?= <j@x.test>", "=?UTF-8?B?SsO8cmdlbg==?= <j@x.test>",
+	"\"\" <e@x.test>", "a@[127.0.0.1]", "j\xc3\xbcrgen@x.test", "A <a@x.test> B", "<@r.test:a@x.test>", ":;", ";", "g:", "g: ;"}
+
 func (x g) topHeaders(sb *strings.Builder) {
-	x.field(sb, "From", x.mostly(96, []string{"a@x.test", "\"A B\" <a@x.test>", ""}, []string{"bad address", "<a@x.test>, <b@x.test>"}), 90)
-	x.field(sb, "To", x.mostly(97, []string{"b@x.test", "b@x.test, \"C\" <c@x.test>", ""}, []string{"nonsense"}), 80)
-	x.field(sb, "Cc", x.mostly(95, []string{"c@x.test", ""}, []string{"@@"}), 20)
-	x.field(sb, "Bcc", x.mostly(90, []string{"d@x.test"}, []string{"x y z"}), 10)
+	x.field(sb, "From", x.mostly(92, []string{"a@x.test", "\"A B\" <a@x.test>", ""}, append([]string{"bad address", "<a@x.test>, <b@x.test>"}, oddAddrs...)), 90)
+	x.field(sb, "To", x.mostly(93, []string{"b@x.test", "b@x.test, \"C\" <c@x.test>", ""}, append([]string{"nonsense"}, oddAddrs...)), 80)
+	x.field(sb, "Cc", x.mostly(90, []string{"c@x.test", ""}, append([]string{"@@"}, oddAddrs...)), 20)
+	x.field(sb, "Bcc", x.mostly(85, []string{"d@x.test"}, append([]string{"x y z"}, oddAddrs...)), 10)
+	x.field(sb, "Reply-To", x.mostly(60, []string{"r@x.test"}, oddAddrs), 8)
 	x.field(sb, "Date", x.mostly(96, []string{"Wed, 01 Jan 2025 10:00:00 +0000", "Wed, 01 Jan 2025 10:00:00 +0000 (UTC)", ""}, []string{"yesterday"}), 70)
 	x.field(sb, "Subject", x.pick([]string{"hello", "=?UTF-8?Q?h=C3=A9?=", "", "a\tb"}), 80)
 	x.field(sb, "MIME-Version", "1.0", 80)
@@ -519,6 +526,19 @@ func witnesses() [][]byte {
 	for _, disp := range []string{"attachment", "inline", "ATTACHMENT", "İnline"} {
 		for _, v := range []string{"", "x", "\"", "xy", "\"\"", "\"x", "x\"", "\"a.txt\"", "a.txt", "\"a;b=c.txt\"", "=?UTF-8?Q?n=C3=A4me?="} {
 			out = append(out, []byte("From: a@x.test\r\nTo: b@x.test\r\nMIME-Version: 1.0\r\nContent-Type: multipart/mixed; boundary=BB\r\n\r\n--BB\r\nContent-Type: text/plain; charset=UTF-8\r\nContent-Transfer-Encoding: 7bit\r\n\r\nhello\r\n--BB\r\nContent-Disposition: "+disp+"; filename="+v+"\r\nContent-Type: application/octet-stream\r\nContent-Transfer-Encoding: base64\r\n\r\nQUJD\r\n--BB--\r\n"))
+		}
+	}
+	// every unusual address form in every address header of a small message
+	for _, h := range []string{"From", "To", "Cc", "Bcc", "Reply-To", "Sender"} {
+		for _, v := range oddAddrs {
+			hdr := "From: a@x.test\r\nTo: b@x.test\r\n"
+			switch h {
+			case "From":
+				hdr = "To: b@x.test\r\n"
+			case "To":
+				hdr = "From: a@x.test\r\n"
+			}
+			out = append(out, []byte(hdr+h+": "+v+"\r\nSubject: s\r\nContent-Type: text/plain; charset=UTF-8\r\nContent-Transfer-Encoding: 7bit\r\n\r\nhello\r\n"))
 		}
 	}
 	return out
